@@ -7,7 +7,7 @@ CONSTANTS Tier        \* "quick" | "thorough" | "tiny"
 Tks      == {"tcp_tls", "tcp_notls"}
 EncSets  == {{"none"}, {"tls"}, {"none", "tls"}, {"tls", "dtls"}}   \* "dtls": configured, supported by no transport
 CompSets == {{"none"}, {"none", "gzip"}, {"gzip"}}
-SchSets  == {{"guest"}, {"plain"}, {"guest", "plain"}, {"transport"}, {}, {"key", "external"}}
+SchSets  == {{"guest"}, {"plain"}, {"guest", "plain"}, {"transport"}, {}, {"key", "external"}, {"plain", "key"}}
 
 AllConfigs == [tk : Tks, enc : EncSets, comp : CompSets, schemes : SchSets,
                flavour : {"chan", "server"}]
@@ -15,8 +15,8 @@ AllConfigs == [tk : Tks, enc : EncSets, comp : CompSets, schemes : SchSets,
 QuickConfigs == {c \in AllConfigs :
                    /\ (c.comp = {"none", "gzip"} => (c.enc = {"none", "tls"} /\ c.schemes = {"guest", "plain"}))
                    /\ (c.comp = {"gzip"} => c.schemes = {"guest", "plain"})
-                   /\ (c.schemes \in {{"transport"}, {}, {"key", "external"}} => c.enc = {"none"})
-                   /\ (c.schemes = {"key", "external"} => c.comp = {"none"})
+                   /\ (c.schemes \in {{"transport"}, {}, {"key", "external"}, {"plain", "key"}} => c.enc = {"none"})
+                   /\ (c.schemes \in {{"key", "external"}, {"plain", "key"}} => c.comp = {"none"})
                    /\ (c.enc = {"tls", "dtls"} => (c.comp = {"none"} /\ c.schemes = {"guest", "plain"}))}
 TinyConfigs == {c \in AllConfigs : c.tk = "tcp_tls" /\ c.comp = {"none"} /\ c.schemes = {"guest", "plain"}
                                    /\ c.flavour = "chan"}
